@@ -634,6 +634,9 @@ pub struct TreeStreamerOnce {
     counter: Vec<usize>,
     /// The number of finished trees
     finished_ids: usize,
+    /// The tree loader threads. They are joined once the stream is exhausted, so that their clones of
+    /// the backend and of the index are released before the iterator reports its end.
+    loaders: Vec<std::thread::JoinHandle<()>>,
 }
 
 impl TreeStreamerOnce {
@@ -664,18 +667,24 @@ impl TreeStreamerOnce {
         let (out_tx, out_rx) = bounded(constants::MAX_TREE_LOADER);
         let (in_tx, in_rx) = unbounded();
 
+        let mut loaders = Vec::with_capacity(constants::MAX_TREE_LOADER);
         for _ in 0..constants::MAX_TREE_LOADER {
             let be = be.clone();
             let index = index.clone();
             let in_rx = in_rx.clone();
             let out_tx = out_tx.clone();
-            let _join_handle = std::thread::spawn(move || {
+            let join_handle = std::thread::spawn(move || {
                 for (path, id, count) in in_rx {
-                    out_tx
+                    // the receiver is gone if the stream was dropped early (e.g. after an error): just end
+                    if out_tx
                         .send(Tree::from_backend(&be, &index, id).map(|tree| (path, tree, count)))
-                        .unwrap();
+                        .is_err()
+                    {
+                        break;
+                    }
                 }
             });
+            loaders.push(join_handle);
         }
 
         let counter = vec![0; ids.len()];
@@ -686,6 +695,7 @@ impl TreeStreamerOnce {
             p,
             counter,
             finished_ids: 0,
+            loaders,
         };
 
         for (count, id) in ids.into_iter().enumerate() {
@@ -744,12 +754,29 @@ impl TreeStreamerOnce {
     }
 }
 
+impl Drop for TreeStreamerOnce {
+    fn drop(&mut self) {
+        // Close both queues so that the loader threads end - also if the stream is dropped before it is
+        // exhausted - and wait for them: they hold clones of the backend and of the index.
+        drop(self.queue_in.take());
+        drop(mem::replace(&mut self.queue_out, crossbeam_channel::never()));
+        for loader in self.loaders.drain(..) {
+            _ = loader.join();
+        }
+    }
+}
+
 impl Iterator for TreeStreamerOnce {
     type Item = TreeStreamItem;
 
     fn next(&mut self) -> Option<Self::Item> {
         if self.counter.len() == self.finished_ids {
             drop(self.queue_in.take());
+            // every requested tree has been delivered, so the loaders are idle and end as soon as the
+            // request queue is closed; wait for them instead of leaving their index clones dangling
+            for loader in self.loaders.drain(..) {
+                _ = loader.join();
+            }
             self.p.finish();
             return None;
         }
